@@ -32,6 +32,29 @@ def G(name, *edits):
 
 
 VARIANTS = [
+    B("C17 revert F54: resolved flag overwritten per argument", "C17", "R17j",
+      (RULE, """            arg, arg_resolved = resolve_forward_type(arg)
+            if arg_resolved:
+                arg = cls._parse_arg(arg)
+                resolved = True""", """            arg, resolved = resolve_forward_type(arg)
+            if resolved:
+                arg = cls._parse_arg(arg)""")),
+    B("C17 revert F55: combined origin not re-resolved", "C17", "R17k",
+      (RULE, """        if isinstance(cls.__origin__, LogicalType):
+            # Rule[AnyOf(ForwardRef('X'), None)]: the references sit in the combined origin
+            if cls.__origin__.resolve_forward_refs():
+                resolved = True
+""", "")),
+    B("C17 revert F53: base parsers not resolved for a subclass", "C17", "R17i",
+      (CLS, """            if isinstance(parser, ClassParser):
+                parser.resolve_forward_refs(ignore_errors=ignore_errors)""", """            if isinstance(parser, ClassParser) and parser.forward_refs:
+                parser.resolve_forward_refs(ignore_errors=ignore_errors)""")),
+    G("benign C17: resolved flag accumulated with or",
+      (RULE, """            if arg_resolved:
+                arg = cls._parse_arg(arg)
+                resolved = True""", """            resolved = resolved or arg_resolved
+            if arg_resolved:
+                arg = cls._parse_arg(arg)""")),
     B("C13 revert F49: output required ignores options.no_default", "C13", "R13c",
       (GEN, """                if not options.no_default and not field.no_default \\
                         and not (field.defer_default or options.defer_default):""",
